@@ -126,7 +126,7 @@ func parseUDTTerm(l *lexer, t token) (idempotent bool, typ termType, err error) 
 		if err != nil {
 			return false, termSetMapUdtLiteral, err
 		}
-		t = skipToken(l, l.next(), tkColon)
+		t = skipToken(l, t, tkColon) // The token after the field name has already been read
 		if idempotent, typ, err = parseTerm(l, t); !idempotent {
 			return idempotent, termSetMapUdtLiteral, err
 		}
